@@ -949,13 +949,11 @@ struct static_array<T, ::boost::multi::dimensionality_type{0}, Alloc>  // NOLINT
 
 	static_array(static_array const& other, allocator_type const& alloc)  // 5b
 	: array_alloc{alloc}, ref(static_array::allocate(other.num_elements()), extensions(other)) {
-		assert(this->stride() != 0);
 		uninitialized_copy_(other.data_elements());
 	}
 
 	static_array(static_array const& other)  // 5b
 	: array_alloc{other.get_allocator()}, ref{static_array::allocate(other.num_elements(), other.data_elements()), {}} {
-		assert(this->stride() != 0);
 		uninitialized_copy(other.data_elements());
 	}
 
